@@ -6,6 +6,12 @@ import os
 V = os.path.dirname(os.path.dirname(os.path.abspath(__file__)))
 
 CHECKS = {
+    "C08": dict(cat="model_checking", ref="§3.3, §4 C08", tech="TLA+ MiniJS.tla (definitional small-step machine) evaluated by TLC as an oracle on generated programs; goja runs the printed programs; logs and completions compared",
+                text="MiniJS.tla is a small-step definitional semantics of the control-flow subset (try/catch/finally, five loop kinds, labels, switch with fall-through, break/continue/return/throw, for-of / destructuring / spread over instrumented iterators with IteratorClose). TLC evaluates the machine — checking its own invariants TypeOK/CompOK/FinOnce in every state — on a systematic family (every nesting of two (thorough: three) constructs and try positions with an abrupt completion of each kind innermost) and on seeded random programs; the same trees are printed as JavaScript and run by goja; every finally entry, catch entry, next()/return() call and the final completion must agree.",
+                note="Trusts TLC, the printer (lib/mjgen.py) and the runner. Uncatchable conditions (interrupt, stack overflow) running no finally/close are decided by the VM trace check (C03/C15), not here. Subset: constants as values, no closures."),
+    "C09": dict(cat="model_checking", ref="§3.3 L2, §4 C09", tech="TLA+ MiniJS.tla generator layer evaluated by TLC as oracle over (generator body, driver history) pairs; goja runs the printed programs",
+                text="The generator layer of MiniJS.tla (states start/run/suspended/done, next(v)/throw(e)/return(v) from the driver, yield inside every statement position incl. catch and finally blocks, yield* delegation to instrumented iterators with/without throw and return methods, return through pending finally regions that yield again) is evaluated by TLC for systematic bodies x all driver histories of length <= 3 and for seeded random bodies x histories of length <= 6; goja must produce the same IteratorResults, thrown errors and side-effect log.",
+                note="Trusts TLC, the printer and the runner. yield appears as a statement-level expression (`log(7000 + (yield n))`); yields in arbitrary operand positions, re-entrant calls and async functions are not yet in the model."),
     "C11": dict(cat="model_checking", ref="§3.5 ObjProxy, §4 C11", tech="TLA+ ObjProxy.tla (trap x target state x answer lattice) and Obj.tla model-checked by TLC; every transition replayed on real Proxies (JS handler and Go ProxyTrapConfig, 1-2 layers)",
                 text="Invariant half: TLC enumerates ObjProxy.tla — for each of 11 traps, every target cell state (absent/data/accessor x writable x configurable x extensible, prototype) x every trap answer from a lattice of honest and lying answers (descriptors differing in one field, booleans, key lists with missing/extra/duplicate/non-key entries, wrong prototype, non-object) x revoked — with ECMA-262 10.5 deciding accept vs TypeError, and checks that a proxy operation never changes the target and never reports something contradicting a non-configurable target property; each transition is replayed on a real Proxy with an answering JS handler and with a Go ProxyTrapConfig handler. Forwarding half: the complete Obj.tla edge sets (C04) are replayed on handler-less, Reflect-forwarding (1 and 2 layers), Go-handler, function-target and array-target proxies and must behave exactly like ordinary objects.",
                 note="Trusts TLC, the JS adaptors (objproxy.js, obj.js) running in goja and natives.DelegatingTraps/ForwardingTraps. apply/construct traps are exercised only by the forwarding kinds. Quick tier uses the descriptor lattice (50 shapes), thorough all 729."),
